@@ -103,17 +103,17 @@ def run(m: Model, r: Report, tier: str) -> None:
         r.check(ok, "R1", f"{ep.qualname}#KeyboardInterrupt", f"Ctrl-C maps to {vals}, documented 130 (128 + SIGINT)", loc=ep.loc)
     if "SystemExit" in handlers:
         h = handlers["SystemExit"]
-        matches = [n for n in ast.walk(h) if isinstance(n, ast.Match)]
-        ok = False
-        detail = "no match on e.code"
-        if len(matches) == 1 and ast.unparse(matches[0].subject) == f"{h.name}.code":
+        from sa import dispatch as _dp15
+        arms15 = _dp15.arms(h, f"{h.name}.code")
+        ok = None
+        detail = "no dispatch (match / isinstance test) on e.code"
+        if arms15 is not None:
             table = {}
-            for c in matches[0].cases:
-                key = ast.unparse(c.pattern)
-                table[key] = [fold_code(v) for v in assigned_codes(c.body)]
+            for a_ in arms15:
+                table[" | ".join(a_.patterns) if a_.patterns else "_"] = [fold_code(v) for st_ in [ast.Module(body=a_.body, type_ignores=[])] for v in assigned_codes(a_.body)]
             detail = str(table)
             ok = table.get("int()") == [f"{h.name}.code"] and table.get("_") == [70] and len(table) == 2
-        r.check(ok, "R1", f"{ep.qualname}#SystemExit", f"sys.exit mapping is {detail}; documented: int n -> n, anything else -> 70", loc=ep.loc)
+        r.check3(ok, "R1", f"{ep.qualname}#SystemExit", f"sys.exit mapping is {detail}; documented: int n -> n, anything else -> 70", loc=ep.loc)
     if "Exception" in handlers:
         h = handlers["Exception"]
         fors = [n for n in h.body if isinstance(n, ast.For)]
